@@ -1405,7 +1405,9 @@ func (e *Entry) Find(name string) *Entry {
 					mod.NName(), e.Path()))
 				return nil
 			}
-			if m != e.Node.(*Module) {
+			// The root of e's tree is not a module when e belongs to
+			// the entry of a grouping or deviation statement.
+			if em, ok := e.Node.(*Module); !ok || m != em {
 				e = ToEntry(m)
 			}
 		} else if sm, ok := e.Node.(*Module); ok && sm.Kind() == "submodule" {
